@@ -958,7 +958,8 @@ def _literal_values(ctx: Ctx, m, ann) -> list:
     return []
 
 
-def check_partial_scope(ctx: Ctx, r: Rule, roots: list, contracts: Optional[dict] = None, only_modules: Optional[set] = None) -> None:
+def check_partial_scope(ctx: Ctx, r: Rule, roots: list, contracts: Optional[dict] = None, only_modules: Optional[set] = None,
+                        only_funcs: Any = None) -> None:
     """Every partial operation in the functions reachable from `roots` is discharged by a guard idiom."""
     from .escape import graph
 
@@ -970,6 +971,8 @@ def check_partial_scope(ctx: Ctx, r: Rule, roots: list, contracts: Optional[dict
         if g is None:
             continue
         if only_modules is not None and g.module.name not in only_modules:
+            continue
+        if only_funcs is not None and not only_funcs(g):
             continue
         edges = [e for e in cg.callers_of(q) if e.caller in scope and e.rec is not None]
         if edges and all(e.rec.inlined for e in edges) and not any(e.kind == "cha" for e in cg.callers_of(q) if e.caller in scope):
